@@ -58,6 +58,16 @@ CHECKS = {
    note='Trusted: z3, SymDict/SymSetList container models, the stated invariant (every class spans >= 2 patches or is empty; dict and sets agree). '
         'Bound: 3-4 patches x 2-3 local dofs, <= 2-3 pre-existing classes; single-pair joins.',
    technique='inductive invariant step over symbolic container state (z3 LIA), concrete-history replay'),
+ 'C12': dict(
+   category='other', design_ref='4/C12',
+   text='Bounded symbolic verification of solvers.py (source exec\'d with contract stubs): dirk_step and rosenbrock_step run on symbolic affine problems '
+        'F(y)=Ky+g with symbolic M, K, g, x, tau (1x1, 2x2); newton inside the step is replaced by its contract evaluated on the real closure, make_solver by '
+        '"B y = r"; z3 proves the stage equations, the weight formulas (main/embedded), the returned F(x_new) and exact integration of y\'=const for every '
+        'shipped tableau; order conditions up to the documented order are discharged as ground queries on the exact rationals of the constants (tolerance 1e-8); '
+        'constant/adaptive drivers and newton are verified against unconstrained stepper/residual stubs (<= 4 steps / attempts, maxiter <= 3).',
+   note='Trusted: z3, stubs (solver contract, newton contract, norm = fresh non-negative), reals for doubles, Rosenbrock order reading (main = err_order+1). '
+        'Known finding: coeffs_dirk34 is inconsistent (known_findings.json).',
+   technique='compositional symbolic execution with contract stubs + z3 (NRA); ground order-condition queries'),
 }
 
 NA = {
